@@ -178,7 +178,7 @@ DefinedFilters == {"safe", "escape", "e", "length", "upper", "lower", "add", "de
 ApplyDefined(f, v, a) ==
   CASE f = "safe" -> v
     [] f \in {"escape", "e"} -> S(EscStr(StrOf(v)))
-    [] f = "length" -> I(CASE v.k = "str" -> Len(v.s) [] v.k \in {"list", "map"} -> Len(v.l) [] OTHER -> 0)
+    [] f = "length" -> I(CASE v.k = "str" -> Len(v.s) [] v.k = "markup" -> Len(PiecesStr(v.l)) [] v.k \in {"list", "map"} -> Len(v.l) [] OTHER -> 0)
     [] f = "upper" -> S([i \in 1..Len(StrOf(v)) |-> UpAtom(StrOf(v)[i])])
     [] f = "lower" -> S([i \in 1..Len(StrOf(v)) |-> LoAtom(StrOf(v)[i])])
     [] f = "add" -> IF v.k = "int" /\ a.k = "int" THEN I(v.n + a.n) ELSE S(StrOf(v) \o StrOf(a))
@@ -267,6 +267,8 @@ Eval(e, st) ==
     [] e.t = "arr" -> LET r == EvalList(e.items, st, <<>>) IN R(L(r.v), r.st, FALSE)
     [] e.t = "filt" -> LET r == Eval(e.e, st) IN EvalChain(e.chain, 1, r, r.st)
     [] e.t = "not" -> LET r == Eval(e.a, st) IN R(B(~Truthy(r.v)), r.st, FALSE)
+    \* unary minus applies to its whole operand - a literal or name *with* its filters (a filter binds tighter than any operator)
+    [] e.t = "neg" -> LET r == Eval(e.a, st) IN R(I(0 - (IF r.v.k = "int" THEN r.v.n ELSE 0)), r.st, FALSE)
     [] e.t = "bin" ->
          LET ra == Eval(e.a, st) IN
          IF e.op = "and" THEN (IF ~Truthy(ra.v) THEN R(B(FALSE), ra.st, FALSE)
